@@ -124,8 +124,9 @@ Definition bclass (c : bcase) : N :=
 Definition bclasses (cs : list bcase) : list N := map bclass cs.
 (* indices of the cases in the classes of blocked-deferred-panic-recovered-by-caller-continues (A) and
    replaced-panic-resurrected-when-deferred-call-blocks (B) *)
-Definition bblockflags (cs : list bcase) : list N := idx_where (fun c => negb (fst (spec_blockflags FUEL (b_prog c)))) 0%N cs.
-Definition bblockflags2 (cs : list bcase) : list N := idx_where (fun c => negb (snd (spec_blockflags FUEL (b_prog c)))) 0%N cs.
+Definition bblockflags (cs : list bcase) : list N := idx_where (fun c => negb (fst (fst (spec_blockflags FUEL (b_prog c))))) 0%N cs.
+Definition bblockflags2 (cs : list bcase) : list N := idx_where (fun c => negb (snd (fst (spec_blockflags FUEL (b_prog c))))) 0%N cs.
+Definition bblockflags3 (cs : list bcase) : list N := idx_where (fun c => negb (snd (spec_blockflags FUEL (b_prog c)))) 0%N cs.
 
 (* dynamic features of the specification run that delimit the two recorded
    findings: a Goexit was executed; a panic was raised by a deferred call while
